@@ -142,6 +142,7 @@ type c17prog struct {
 	formFrom   int // rows of the top-level form containing the fault
 	formTo     int
 	descr      string
+	blocks     [][2]int // 1-based row ranges of the top-level blocks (fillers, fault form, later forms), in order
 }
 
 func init() {
@@ -187,19 +188,23 @@ func init() {
 			if asDo {
 				lines = append(lines, "(do")
 			}
-			for _, b := range fc.before {
-				lines = append(lines, c17Fillers[b].lines...)
-			}
 			pr := c17prog{}
+			add := func(ls []string) {
+				pr.blocks = append(pr.blocks, [2]int{len(lines) + 1, len(lines) + len(ls)})
+				lines = append(lines, ls...)
+			}
+			for _, b := range fc.before {
+				add(c17Fillers[b].lines)
+			}
 			pr.formFrom = len(lines) + 1
 			pr.faultRow = len(lines) + 1 + ff.fault
-			lines = append(lines, ff.lines...)
+			add(ff.lines)
 			pr.formTo = len(lines)
 			for _, b := range fc.after {
-				lines = append(lines, c17Fillers[b].lines...)
+				add(c17Fillers[b].lines)
 			}
 			for _, l := range later {
-				lines = append(lines, l.lines...)
+				add(l.lines)
 			}
 			if asDo {
 				lines = append(lines, ")")
@@ -237,12 +242,12 @@ func init() {
 				},
 				Run: func(i int64, r *vf.Rec) {
 					c := caseOf(i)
-					routes := []string{"one-do-form", "form-by-form-REPL", "load-file", "leading-blank-lines"}
+					routes := []string{"one-do-form", "form-by-form-REPL", "load-file", "leading-blank-lines", "forms-read-one-by-one", "same-text-under-a-second-module-name"}
 					for _, route := range routes {
 						if route == "load-file" && c.wrap > nW {
 							continue // load-file route: wrapper paths of length <= 1
 						}
-						p := build(c.fault, c.wrap, dels[c.del], fillerChoicesOf()[c.fc], route == "one-do-form" || route == "leading-blank-lines")
+						p := build(c.fault, c.wrap, dels[c.del], fillerChoicesOf()[c.fc], route == "one-do-form" || route == "leading-blank-lines" || route == "same-text-under-a-second-module-name")
 						if route == "leading-blank-lines" {
 							// the module text itself starts with blank lines and a comment
 							p.text = "\n\n; header\n" + p.text
@@ -253,6 +258,38 @@ func init() {
 						var pn *lx.Panic
 						module := "mod"
 						switch route {
+						case "forms-read-one-by-one":
+							// every top-level block is read and evaluated on its own (as a REPL session or a host
+							// feeding forms does), padded with line breaks so that its rows are those of the module text
+							all := strings.Split(p.text, "\n")
+							for _, b := range p.blocks {
+								blk := all[b[0]-1 : b[1]]
+								code := false
+								for _, l := range blk {
+									if t := strings.TrimSpace(l); t != "" && !strings.HasPrefix(t, ";") {
+										code = true
+									}
+								}
+								if !code {
+									continue
+								}
+								text := strings.Repeat("\n", b[0]-1) + strings.Join(blk, "\n") + "\n"
+								pn = lx.Guard(func() { _, err = lisp.REPL(context.Background(), scope, text, types.NewCursorFile("mod")) })
+								if err != nil || pn != nil {
+									break
+								}
+							}
+						case "same-text-under-a-second-module-name":
+							// the identical text was read before under the name "mod" (route one-do-form): read again
+							// under another name, every position must name the new module
+							module = "second/module.lisp"
+							var ast types.MalType
+							ast, err = lisp.READ(p.text, types.NewCursorFile(module), nil)
+							if err != nil {
+								r.ViolationCase("harness: generated program does not read", p.text, err.Error())
+								return
+							}
+							_, err, pn = lx.Eval(context.Background(), ast, scope)
 						case "one-do-form", "leading-blank-lines":
 							var ast types.MalType
 							ast, err = lisp.READ(p.text, types.NewCursorFile("mod"), nil)
@@ -320,7 +357,7 @@ func init() {
 				},
 			}
 		}
-		common := fmt.Sprintf("%d faults (undefined symbol, throw, failing builtin, failed assert, call of a non-function; single- and multi-line) x every wrapper path of length 0..2 over %d wrappers (let, if-then, if-else, do, vector literal, map value, cond, ->, and, or, fn called in place, call argument, try/finally) x fillers before (0..1 quick / 0..2 thorough) and after (0..1) from %d multi-line forms/comments/blank lines/raw strings; routes: one do form, same-line do, load-file from a file (wrapper paths of length <=1)", len(c17Faults), nW, len(c17Fillers))
+		common := fmt.Sprintf("%d faults (undefined symbol, throw, failing builtin, failed assert, call of a non-function; single- and multi-line) x every wrapper path of length 0..2 over %d wrappers (let, if-then, if-else, do, vector literal, map value, cond, ->, and, or, fn called in place, call argument, try/finally) x fillers before (0..1 quick / 0..2 thorough) and after (0..1) from %d multi-line forms/comments/blank lines/raw strings; routes: one do form, same-line do, load-file from a file (wrapper paths of length <=1), after leading blank lines, every top-level form read and evaluated on its own, the same text read again under a second module name", len(c17Faults), nW, len(c17Fillers))
 		return &vf.Check{
 			ID: "C17", Level: "model_checking",
 			Rule: "every program of the bounded layout space (the generator knows the row range of every top-level form and the row where the planted fault starts) is read under a module name and evaluated; when the error carries a position it must name the module, lie within the rows of the top-level form that textually contains the fault and cover the fault's first row; non-trivial = the error carried a position",
